@@ -333,6 +333,10 @@ class _ReplayProg:
             self.args.append(var)
         self.inputs = case["inputs"]
         self.module_source = case["module"]
+        self._driver = case.get("driver")
+
+    def driver_sub(self):
+        return self._driver
 
 
 def replay(case):
